@@ -380,6 +380,8 @@ def build_cases(tier, seed):
             t = corpus.repeat_kernel(lines, times)
             tag = "rep%d" % times
         cases.append({"name": "%s+%s#%d" % (name, tag, j), "arch": "zen1" if isa == "x86" else arm_models[j % 4], "text": t})
+    for w in corpus.windowed_cases(rng, 4 if tier == "quick" else 30):
+        cases.append({"name": w["name"], "arch": w["arch"], "text": w["text"], "lines": w["lines"]})
     ngen = 22 if tier == "quick" else 200
     for j in range(ngen):
         isa = "x86" if j % 2 == 0 else "aarch64"
